@@ -564,3 +564,203 @@ impl Monitor for KeepaliveMon {
         }
     }
 }
+
+// =====================================================================================
+// C05 (E1 lane) — NAK frames in closed-loop shell runs
+// =====================================================================================
+
+pub struct NakMon {
+    owners: super::classic_ref::OwnerModel,
+}
+
+impl Default for NakMon {
+    fn default() -> Self {
+        Self::new()
+    }
+}
+
+impl NakMon {
+    pub fn new() -> Self {
+        NakMon { owners: super::classic_ref::OwnerModel::new() }
+    }
+}
+
+impl Monitor for NakMon {
+    fn on_arm(&mut self, rec: &ArmRecord, inj: &[Injected], _sim: &Sim, rep: &mut Report) {
+        match &rec.kind {
+            ArmKind::Client { inj: k } => {
+                let d = &inj[*k];
+                let (uniq, _) = routing_of(rec, d.bytes.len());
+                if let (Some(u), Some(s)) = (uniq, d.seq) {
+                    self.owners.route(s, u, rec.t);
+                }
+            }
+            ArmKind::Uplink { bytes, .. } if rc::ptype(bytes) == Some(0x8003) && !rec.pre_logs.is_empty() => {
+                rep.count("e1.nak_frames");
+                let t = rec.t;
+                let mut held: Vec<(u64, std::collections::BTreeSet<i32>)> = rec.pre_logs.clone();
+                let order: Vec<u64> = rec.pre.iter().map(|p| p.conn_id).collect();
+                let mut charges: HashMap<u64, i32> = HashMap::new();
+                let mut ambiguous = false;
+                for s in rc::srt_nak(bytes) {
+                    rep.eval();
+                    let si = s as i32;
+                    let owner = self.owners.remembered(s, t).filter(|id| order.contains(id));
+                    let holders: Vec<u64> = order.iter().copied().filter(|id| held.iter().any(|(h, set)| h == id && set.contains(&si))).collect();
+                    let charged = match owner {
+                        Some(o) => Some(o).filter(|o| holders.contains(o)),
+                        None => {
+                            if holders.len() >= 2 {
+                                ambiguous = true;
+                            }
+                            holders.first().copied()
+                        }
+                    };
+                    if let Some(c) = charged {
+                        *charges.entry(c).or_default() += 1;
+                        for (h, set) in held.iter_mut() {
+                            if *h == c {
+                                set.remove(&si);
+                            }
+                        }
+                        rep.count("e1.nak_entries_charged");
+                    } else {
+                        rep.count("e1.nak_entries_not_charged");
+                    }
+                }
+                for post in rec.post.iter() {
+                    let Some(pre) = find(&rec.pre, post.conn_id) else { continue };
+                    let k = charges.get(&post.conn_id).copied().unwrap_or(0);
+                    let mut w = pre.window;
+                    for _ in 0..k {
+                        w = (w - 100).max(1000);
+                    }
+                    let exp = (pre.nak_count + k, w, pre.in_flight - k);
+                    let got = (post.nak_count, post.window, post.in_flight);
+                    if got != exp {
+                        if ambiguous {
+                            rep.count("e1.nak_frame_ambiguous_fallback_accepted");
+                            break;
+                        }
+                        rep.violation(
+                            "C05.e1.nak-frame-deltas",
+                            format!("arm#{} t={t}: NAK frame {:?}: link {:x} (nak_count, window, in_flight) {:?} -> {got:?}, ownership model expects {exp:?} ({k} charges)", rec.no, rc::srt_nak(bytes).iter().take(12).collect::<Vec<_>>(), post.conn_id, (pre.nak_count, pre.window, pre.in_flight)),
+                        );
+                    }
+                }
+            }
+            _ => {}
+        }
+    }
+}
+
+// =====================================================================================
+// C09 — return path: relay filter, liveness stamp, delivery proof
+// =====================================================================================
+
+pub struct ReturnPathMon;
+
+impl Monitor for ReturnPathMon {
+    fn on_arm(&mut self, rec: &ArmRecord, _inj: &[Injected], _sim: &Sim, rep: &mut Report) {
+        let ArmKind::Uplink { conn_id, bytes, .. } = &rec.kind else { return };
+        let b = bytes;
+        let t = rec.t;
+        rep.eval();
+        rep.count("c09.injected");
+        let ty = rc::ptype(b);
+        let internal = rc::is_srtla_internal_return(b);
+        let class = match ty {
+            None => "short",
+            Some(0x9201) => "reg2",
+            Some(0x9202) => "reg3",
+            Some(0x9210) => "reg_err",
+            Some(0x9211) => "reg_ngp",
+            Some(0x9100) => "srtla_ack",
+            Some(0x9000) => "keepalive",
+            Some(0x8002) => "srt_ack",
+            Some(0x8003) => "srt_nak",
+            Some(x) if x & 0x8000 == 0 => "srt_data",
+            Some(_) => "other_control",
+        };
+        let Some(pre) = find(&rec.pre, *conn_id) else {
+            // unknown link id: nothing may happen at all
+            if !rec.client.is_empty() {
+                rep.violation("C09.relay.from-unknown-link", format!("arm#{}: datagram for an unknown link id relayed {} frames", rec.no, rec.client.len()));
+            }
+            return;
+        };
+        let post = find(&rec.post, *conn_id).unwrap_or(pre);
+        let state = if !pre.connected && pre.established_ms == 0 {
+            "registering"
+        } else if !pre.connected {
+            "disconnected"
+        } else if pre.timed_out(t, 5000) {
+            "silent"
+        } else if pre.waiting_ka {
+            "awaiting_echo"
+        } else if pre.phase.starts_with("warming") {
+            "warming"
+        } else {
+            "live"
+        };
+        rep.count(&format!("c09.class.{class}.{state}"));
+        rep.distinct(crate::prng::hash_u64s(&[ty.map(|x| x as u64).unwrap_or(70_000), b.len().min(300) as u64, rec.client_known_pre as u64, state.len() as u64 ^ (state.as_bytes()[0] as u64) << 8]));
+        // ---- relay filter ---------------------------------------------------------------------------
+        let should_relay = rec.client_known_pre && b.len() >= 2 && !internal;
+        if should_relay {
+            if rec.client.is_empty() {
+                rep.violation(&format!("C09.relay.not-delivered.{class}"), format!("arm#{} t={t}: a {}-byte datagram of type {ty:02x?} arriving on a {state} link was not relayed to the SRT client (first bytes {:02x?})", rec.no, b.len(), &b[..b.len().min(12)]));
+            } else {
+                rep.count("c09.relayed_compared");
+            }
+            for c in rec.client.iter() {
+                if c != b {
+                    rep.violation("C09.relay.modified", format!("arm#{}: the client received {} bytes {:02x?}.. for an injected datagram of {} bytes {:02x?}..", rec.no, c.len(), &c[..c.len().min(12)], b.len(), &b[..b.len().min(12)]));
+                }
+            }
+        } else if !rec.client.is_empty() {
+            let why = if internal {
+                "srtla-internal"
+            } else if b.len() < 2 {
+                "shorter-than-2-bytes"
+            } else {
+                "client-unknown"
+            };
+            rep.violation(&format!("C09.relay.leaked.{why}.{class}"), format!("arm#{} t={t}: {} frame(s) reached the SRT client for a {}-byte {class} datagram (type {ty:02x?}, client known {})", rec.no, rec.client.len(), b.len(), rec.client_known_pre));
+        } else if internal {
+            rep.count("c09.internal_not_relayed");
+        }
+        // ---- liveness stamp ----------------------------------------------------------------------------------
+        let registration_reply = matches!(ty, Some(0x9201) | Some(0x9202) | Some(0x9210) | Some(0x9211));
+        if b.len() >= 2 && !registration_reply {
+            if post.last_received != Some(t) {
+                rep.violation(&format!("C09.liveness.not-stamped.{class}"), format!("arm#{} t={t}: {class} datagram ({} B) on a {state} link left last_received at {:?}", rec.no, b.len(), post.last_received));
+            } else {
+                rep.count("c09.liveness_stamped");
+            }
+        }
+        // ---- delivery proof ---------------------------------------------------------------------------------------
+        let acked: Vec<i32> = if ty == Some(0x9100) { rc::srtla_ack(b).into_iter().map(|x| x as i32).collect() } else { Vec::new() };
+        for p in rec.post.iter() {
+            let Some(q) = find(&rec.pre, p.conn_id) else { continue };
+            if p.proof == q.proof {
+                continue;
+            }
+            // proof changed on this link in this arm: must be earned
+            let held = rec.pre_logs.iter().find(|(id, _)| *id == p.conn_id).map(|(_, s)| s);
+            let earned_ack = held.is_some_and(|h| acked.iter().any(|s| h.contains(s)));
+            let ts = rc::keepalive_ts(b);
+            let answered_ka = p.conn_id == *conn_id && ty == Some(0x9000) && q.waiting_ka && b.len() >= 10 && ts.is_some_and(|x| x < t && t - x <= 10_000);
+            let reset = p.proof == 0;
+            if earned_ack {
+                rep.count("c09.proof.earned_ack");
+            } else if answered_ka {
+                rep.count("c09.proof.answered_keepalive");
+            } else if reset {
+                rep.count("c09.proof.cleared_by_reset");
+            } else {
+                rep.violation(&format!("C09.proof.unearned.{class}"), format!("arm#{} t={t}: delivery proof of link {:x} moved {} -> {} on a {class} datagram ({} B) although the link neither lost a held sequence to an SRTLA ACK nor answered an outstanding keepalive probe (waiting {}, ts {ts:?})", rec.no, p.conn_id, q.proof, p.proof, b.len(), q.waiting_ka));
+            }
+        }
+    }
+}
